@@ -543,19 +543,31 @@ func (s *connectableObservableImpl[T]) Connect() Subscription {
 // The Subscription might be already disposed when the Connect method returns.
 func (s *connectableObservableImpl[T]) ConnectWithContext(ctx context.Context) Subscription {
 	s.mu.Lock()
-	if s.subscription == nil || s.subscription.IsClosed() {
-		s.subscription = s.source.SubscribeWithContext(ctx, s.subject)
+
+	if s.subscription != nil && !s.subscription.IsClosed() {
+		subscription := s.subscription
 		s.mu.Unlock()
-		s.subscription.Add(func() {
-			if s.config.ResetOnDisconnect {
-				s.subject = s.config.Connector()
-			}
-		})
-	} else {
-		s.mu.Unlock()
+
+		return subscription
 	}
 
-	return s.subscription
+	subscription := s.source.SubscribeWithContext(ctx, s.subject)
+	s.subscription = subscription
+	s.mu.Unlock()
+
+	// s.subject and s.subscription are shared with Subscribe and with concurrent
+	// calls to Connect: only touch them under the mutex.
+	subscription.Add(func() {
+		if s.config.ResetOnDisconnect {
+			subject := s.config.Connector()
+
+			s.mu.Lock()
+			s.subject = subject
+			s.mu.Unlock()
+		}
+	})
+
+	return subscription
 }
 
 func (s *connectableObservableImpl[T]) Subscribe(observer Observer[T]) Subscription {
@@ -563,5 +575,9 @@ func (s *connectableObservableImpl[T]) Subscribe(observer Observer[T]) Subscript
 }
 
 func (s *connectableObservableImpl[T]) SubscribeWithContext(ctx context.Context, observer Observer[T]) Subscription {
-	return s.subject.SubscribeWithContext(ctx, observer)
+	s.mu.Lock()
+	subject := s.subject
+	s.mu.Unlock()
+
+	return subject.SubscribeWithContext(ctx, observer)
 }
